@@ -916,8 +916,25 @@ func (c *FnCtx) deref(env *Env, p Val, n ast.Node) Val {
 	}
 	if !env.spec {
 		c.safe(env.st, "nil", not(eq(p.T, "0")), n)
+		c.rawGuard(env, p.T, pt.Elem(), n)
 	}
 	return c.loadFrom(env, p.T, pt.Elem())
+}
+
+// rawGuard: contracts with a `guard` clause state where raw *Value pointers may point
+// (e.g. inside the value stack); every load/store through such a pointer is checked.
+func (c *FnCtx) rawGuard(env *Env, addr string, elem types.Type, n ast.Node) {
+	if c.C == nil || c.C.Guard == nil || c.inSpec > 0 || !c.isMemStruct(elem) {
+		return
+	}
+	pos := n.Pos()
+	if len(c.frames) > 1 {
+		pos = c.Fn.Decl.Body.Rbrace // names of the contract's function; locals of inlined callees are not visible
+	}
+	genv := c.specEnvAt(env.st, pos)
+	genv.bound = map[string]Val{"addr": {T: addr, Typ: untypedInt}}
+	g := c.eval(genv, c.C.Guard.Expr)
+	c.safe(env.st, "guard", g.T, n)
 }
 
 // loadFrom reads a whole value of type t at address addr.
@@ -1183,6 +1200,21 @@ func (c *FnCtx) addrOf(env *Env, x ast.Expr, n ast.Node) Val {
 		}
 	case *ast.SelectorExpr:
 		if env.spec {
+			// &p.f in a specification: the interior address of field f of the object p
+			base := c.eval(env, y.X)
+			pt, isPtr := c.subst(base.Typ).Underlying().(*types.Pointer)
+			if !isPtr {
+				break
+			}
+			_, stt, ok := c.structOf(pt.Elem())
+			if !ok {
+				break
+			}
+			for i := 0; i < stt.NumFields(); i++ {
+				if stt.Field(i).Name() == y.Sel.Name {
+					return Val{T: c.interiorAddr(base.T, pt.Elem(), stt.Field(i)), Typ: types.NewPointer(stt.Field(i).Type())}
+				}
+			}
 			break
 		}
 		if sel, ok := c.info().Selections[y]; ok && sel.Kind() == types.FieldVal {
